@@ -283,7 +283,63 @@ def sw_segment_relabel(rng, n):
     return out
 
 
-SWEEPS = [sw_segment_relabel, sw_evaluate_ranges, sw_multipitch_self, sw_beat, sw_pattern_alignment_tempo, sw_events, sw_transcription, sw_melody, sw_multipitch, sw_hierarchy, sw_segment, sw_keychord, sw_chord, sw_intervals]
+@_quiet
+def sw_ari_large(rng, n):
+    """ARI / Rand / pairwise on a LONG annotation with a fine frame grid (counts beyond 2**31): equals the textbook formula
+    computed with exact integers (C16; guards against fixed-width integer arithmetic)"""
+    import numpy as np
+    from fractions import Fraction
+    from mir_eval import segment as S
+    out = []
+    for _ in range(1):
+        dur = rng.choice([1200.0, 1500.0])
+        def ann(k):
+            cuts = sorted(rng.sample(range(1, int(dur) - 1), k))
+            b = [0.0] + [float(c) for c in cuts] + [dur]
+            labs = [rng.choice(['a', 'a', 'a', 'b', 'c']) for _ in range(len(b) - 1)]
+            return np.array([[b[i], b[i + 1]] for i in range(len(b) - 1)]), labs
+        ri, rl = ann(rng.choice([3, 5]))
+        ei, el = ann(rng.choice([3, 6]))
+        fs = 0.01
+        try:
+            got = float(S.ari(ri, rl, ei, el, frame_size=fs))
+        except Exception as e:  # noqa
+            out.append({'function': 'segment.ari', 'relation': 'equals the textbook formula on the contingency table (long annotation)',
+                        'input': [ri.tolist(), rl, ei.tolist(), el, fs], 'observed': type(e).__name__, 'why': 'raised'})
+            return out
+        # exact: frames are [k*fs, (k+1)*fs); boundaries are integers, so frame k has the label of the segment containing k*fs
+        nfr = int(dur / fs)
+        def frames(iv, labs):
+            y = np.empty(nfr, dtype=np.int64)
+            names = sorted(set(labs))
+            for (a, b), l in zip(iv, labs):
+                y[int(round(a / fs)):int(round(b / fs))] = names.index(l)
+            return y
+        yr, ye = frames(ri, rl), frames(ei, el)
+        tab = {}
+        for a, b in zip(yr.tolist(), ye.tolist()):
+            tab[(a, b)] = tab.get((a, b), 0) + 1
+        c2 = lambda x: x * (x - 1) // 2
+        rows, cols = {}, {}
+        for (a, b), v in tab.items():
+            rows[a] = rows.get(a, 0) + v
+            cols[b] = cols.get(b, 0) + v
+        sc = sum(c2(v) for v in tab.values())
+        sa = sum(c2(v) for v in rows.values())
+        sb = sum(c2(v) for v in cols.values())
+        tot = c2(nfr)
+        if len(rows) == len(cols) == 1 or len(rows) == len(cols) == nfr or len(rows) == len(cols) == 0:
+            continue
+        exp = Fraction(sa * sb, tot)
+        mean = Fraction(sa + sb, 2)
+        want = float((sc - exp) / (mean - exp))
+        if not abs(got - want) <= 1e-9:
+            out.append({'function': 'segment.ari', 'relation': 'equals the textbook formula on the contingency table (long annotation)',
+                        'input': [ri.tolist(), rl, ei.tolist(), el, fs], 'observed': got, 'why': 'exact integer computation gives %r' % want})
+    return out
+
+
+SWEEPS = [sw_ari_large, sw_segment_relabel, sw_evaluate_ranges, sw_multipitch_self, sw_beat, sw_pattern_alignment_tempo, sw_events, sw_transcription, sw_melody, sw_multipitch, sw_hierarchy, sw_segment, sw_keychord, sw_chord, sw_intervals]
 
 
 def register(fn):
